@@ -420,6 +420,11 @@ pub fn expr_alts() -> Vec<EAlt> {
     v.push(atom("atom.require_and", |_| {
         call(var("require"), vec![bin("And", "&&", 12, 12, 11, var("p"), var("q")), strlit("m")])
     }));
+    // `&&` as a direct argument in another position than the first (the definition says "one of whose direct arguments")
+    v.push(atom("atom.require_and_second", |_| call(var("require"), vec![var("p"), bin("And", "&&", 12, 12, 11, var("q"), var("r"))])));
+    v.push(atom("atom.require_and_last_of_three", |_| {
+        call(var("require"), vec![var("p"), strlit("m"), bin("And", "&&", 12, 12, 11, var("q"), var("r"))])
+    }));
     v.push(atom("atom.require_plain", |_| call(var("require"), vec![var("p"), strlit("m")])));
     // a revert string written as several adjacent literals is one literal node that begins at its first part
     v.push(atom("atom.require_multipart", |_| call(var("require"), vec![var("p"), nodep("StringLiteral", 0, vec![T("\"s\""), T("\"t\"")])])));
